@@ -1,7 +1,7 @@
 (* C06 — main results assembled from TokProofs / ParseProofs / ImageProofs / ValidateProofs. *)
 From Coq Require Import List NArith Bool Arith Lia String.
 From Verif.Common Require Import Labels.
-From Verif.C06 Require Import Model Spec TokProofs ParseProofs ImageProofs ValidateProofs.
+From Verif.C06 Require Import Model Spec TokProofs ParseProofs ImageProofs ValidateProofs FuelProofs.
 Import ListNotations.
 Open Scope N_scope.
 
@@ -128,6 +128,9 @@ Section UIDProofs.
     rewrite !bytes_eqb_refl, bools_eqb_refl. reflexivity.
   Qed.
 End UIDProofs.
+
+Lemma no_out_of_fuel : forall s, tokenize s <> OutOfFuel /\ parse s <> OutOfFuel /\ validate s <> OutOfFuel.
+Proof. intros s. split; [apply tokenize_no_oof|]. split; [apply parse_no_oof|apply validate_no_oof]. Qed.
 
 (* ---- non-vacuity: a parsed selector with every node type, nested ---- *)
 Definition ex_input : bytes := Eval compute in
